@@ -41,8 +41,11 @@ Render(s, p) ==
            trimmed == SubSeq(raw, lb + 1, Len(raw))
        IN [conv |-> conv,
            line |-> LineOf(s, p, c),
-           text |-> IF allBlank THEN <<-1>>                                   \* a line of blanks only: not pinned
+           text |-> IF allBlank /\ Len(raw) <= 200 THEN <<>>                 \* a line of blanks only: nothing is left of it
+                    ELSE IF allBlank THEN <<-1>>
                     ELSE IF Len(raw) <= 200 THEN trimmed
                     ELSE IF lb = 0 THEN SubSeq(raw, 1, 197) \o <<46, 46, 46>> ELSE <<-1>>,
-           col |-> IF allBlank \/ p < start + lb \/ p >= LineEndExcl(s, p, c) THEN -1 ELSE p - start - lb]
+           col |-> IF p >= LineEndExcl(s, p, c) THEN -1
+                   ELSE IF allBlank THEN 0                                     \* ... and the caret stands under its (empty) beginning
+                   ELSE IF p < start + lb THEN -1 ELSE p - start - lb]
 ===================================================================================
